@@ -232,6 +232,9 @@ def check_state(typ, syn, kind, key, subset, top='MARKER'):
             b = 'EXC:' + type(e).__name__
         if a != b:
             bad.append(('expand-winner:%s' % kind, dict(key=key, probe=pr, layered=a[:120], explicit=b[:120], layers=list(subset))))
+        if typ == 'stylesheet' and '<' in a:
+            # an absolute anchor: whatever the syntax name, a stylesheet abbreviation is never expanded by the markup pipeline
+            bad.append(('stylesheet-type-expanded-as-markup', dict(key=key, probe=pr, syntax=syn, output=a[:120], layers=list(subset))))
         if typ == 'markup':
             # the same pair once more with wrap text in the call configuration (markup hides the text from the snippet resolver)
             ut, ue = copy.deepcopy(u0), copy.deepcopy(user3)
